@@ -55,7 +55,7 @@ static void body(mvprog::PT& p) {
         int n = ops[++i] - '0';
         if (op == 'd') { while (G->priv_ready[n].load() == 0) {} G->priv[n]->signal(1); p.result += "d"; G->log += "d"; continue; }
         if (op == 's') { G->signalled += n; G->sem->signal(n); p.result += "s"; G->log += char('a' + p.idx); G->log += 's'; continue; }
-        if (op == 'i') { if (G->prog.pts[n].th) { G->interrupts[n]++; thread_interrupt(G->prog.pts[n].th, EINTR); } p.result += "i"; continue; }
+        if (op == 'i') { if (n < (int)G->prog.pts.size() && G->prog.pts[n].th) { G->interrupts[n]++; thread_interrupt(G->prog.pts[n].th, EINTR); } p.result += "i"; continue; }
         // waits
         uint64_t t0 = mv_now();
         uint64_t sw0 = *(uint64_t*)&photon::get_vcpu()->switch_count;     // (cast: plain read, not a scheduling point)
